@@ -179,6 +179,16 @@ fn note_run(ctx: &mut Ctx, j: &mut Judge, scen_hash: u64, out: &crate::sched::Ru
         ctx.nontrivial(wh);
     }
     ctx.op_n("yield-points", out.decisions.len() as u64);
+    ctx.note_max("yield-points-in-one-execution", out.decisions.len() as u64);
+    if out.fair_switches > 0 {
+        ctx.bucket("execution-with-fairness-switch(spin-wait)");
+    }
+    let (mut run, mut best) = (0u64, 0u64);
+    for k in 0..w.len() {
+        run = if k > 0 && w[k] == w[k - 1] { run + 1 } else { 1 };
+        best = best.max(run);
+    }
+    ctx.note_max("consecutive-yield-points-of-one-worker", best);
 }
 
 /// All schedules (within the preemption bound) of one scenario.
